@@ -30,6 +30,8 @@ func TestVerif(t *testing.T) {
 	case "C07":
 		verifSched(t, r, out, "sch7")
 		verifAdv(t, r, out, "adv7")
+	case "C09":
+		verifC09(t, r, out)
 	case "C12":
 		verifC12(t, r, out)
 	case "C18":
